@@ -766,4 +766,158 @@ theorem wellScoped_all (p : Char → Bool) (g : VIn) (outer : List S) (hk : Look
     (ho : OuterOk (genScope p g outer) g) (he : ExprsOk (genScope p g outer) g) : wellScoped p g outer = true :=
   wellScoped_in p (genScope p g outer) g (localsOk_genScope p g outer hk) ho he hk
 
+
+/-! ### the outside names of the skeleton are not bound by the body -/
+
+def fixedLocals : List S := [t "o", t "init_kwargs", t "i", t "field", t "v1", t "e", t "extra_keys"]
+
+/-- every outside name the skeleton can use, whatever the class -/
+def allOuter : List S :=
+  [t "cls", t "fields", t "MISSING", t "re_raise", t "raise_missing_fields", t "locals", t "Exception", t "__pre_from_dict__",
+   t "aliases", t "len", t "set", t "UnknownKeysError", t "LOG", t "safe_get"]
+
+/-- a name the body may bind: one of seven fixed locals, a field variable, or a name a value expression binds -/
+def Bindable (g : VIn) (n : S) : Prop :=
+  n ∈ fixedLocals ∨ (∃ m, n = fieldVar m) ∨ (∃ f ∈ g.fields, n ∈ f.exprWrites ∨ n ∈ f.exprBinds)
+
+theorem skeletonOuter_sub (g : VIn) : ∀ n ∈ skeletonOuter g, n ∈ allOuter := by
+  intro n hn
+  simp only [skeletonOuter, List.mem_append] at hn
+  rcases hn with (((h | h) | h) | h) | h
+  · simp [allOuter] at h ⊢; rcases h with h | h | h | h | h | h | h <;> simp [h]
+  · split at h <;> simp at h; simp [allOuter, h]
+  · split at h <;> simp at h; rcases h with h | h <;> simp [allOuter, h]
+  · split at h <;> simp at h <;> (rcases h with h | h <;> simp [allOuter, h])
+  · split at h <;> simp at h; simp [allOuter, h]
+
+theorem fixed_bindable (g : VIn) (n : S) (h : n ∈ fixedLocals) : Bindable g n := Or.inl h
+
+theorem field_binds_bindable (p : Char → Bool) (g : VIn) (f : VField) (hf : f ∈ g.fields) :
+    ∀ n ∈ (fieldStmts p g f).flatMap S1.binds, Bindable g n := by
+  intro n hn
+  simp only [fieldStmts, List.flatMap_cons, List.flatMap_nil, List.append_nil, S1.binds, List.mem_append] at hn
+  rcases hn with h | (h | h) | h
+  · -- the lookup line
+    unfold lookupLine at h
+    cases hlk : f.lookup <;> simp [hlk, S0.binds, partsBinds, fieldLit, getPart, pathPart] at h
+    · rcases h with h | h <;> exact Or.inl (by simp [fixedLocals, h])
+    · exact Or.inl (by simp [fixedLocals, h])
+    · rcases h with h | h <;> exact Or.inl (by simp [fixedLocals, h])
+    · exact Or.inl (by simp [fixedLocals, h])
+  · -- what the condition surely binds
+    unfold condWrites at h
+    split at h <;> simp at h <;> exact Or.inl (by simp [fixedLocals, h])
+  · exact Or.inr (Or.inr ⟨f, hf, Or.inr h⟩)
+  · -- the assignment line
+    simp only [assignLine, S0.binds, partsBinds, assignParts, List.flatMap_append, List.mem_append, List.flatMap_cons, List.flatMap_nil,
+      List.append_nil] at h
+    rcases h with h | h
+    · split at h <;> simp [incPart] at h
+      exact Or.inl (by simp [fixedLocals, h])
+    · simp only [exprPart, List.mem_append] at h
+      rcases h with h | h
+      · exact Or.inr (Or.inr ⟨f, hf, Or.inl h⟩)
+      · split at h <;> simp at h
+        exact Or.inr (Or.inl ⟨f.name, h⟩)
+
+theorem allFields_bindable (p : Char → Bool) (g : VIn) : ∀ (fs : List VField), (∀ f ∈ fs, f ∈ g.fields) →
+    ∀ n ∈ (allFieldStmts p g fs).flatMap S1.binds, Bindable g n
+  | [], _, n, hn => by simp [allFieldStmts] at hn
+  | f :: r, hfs, n, hn => by
+    simp only [allFieldStmts, List.flatMap_append, List.mem_append] at hn
+    rcases hn with h | h
+    · exact field_binds_bindable p g f (hfs f (by simp)) n h
+    · exact allFields_bindable p g r (fun f' hf' => hfs f' (by simp [hf'])) n h
+
+/-- everything the body binds is one of the seven fixed locals, a field variable, or bound by a value expression -/
+theorem bindsAll_bindable (p : Char → Bool) (g : VIn) : ∀ n ∈ bindsAll p g, Bindable g n := by
+  intro n hn
+  rw [bindsAll_eq] at hn
+  simp only [List.mem_append] at hn
+  rcases hn with h | h | h | h
+  · unfold headStmts at h
+    simp only [List.flatMap_append, List.mem_append] at h
+    rcases h with (h | h) | h <;> split at h <;>
+      simp [S2.binds, S1.binds, S0.binds, partsBinds, prePart, kwPart, iPart] at h <;>
+      exact Or.inl (by simp [fixedLocals, h])
+  · unfold fieldBlock at h
+    cases hfs : g.fields with
+    | nil => simp [hfs] at h
+    | cons f r =>
+      simp only [hfs, List.flatMap_cons, List.flatMap_nil, List.append_nil, S2.binds] at h
+      rcases List.mem_append.1 h with h | h
+      · rcases List.mem_append.1 h with h | h
+        · rw [List.flatMap_append] at h
+          rcases List.mem_append.1 h with h | h
+          · unfold tagStmts at h
+            split at h
+            · split at h
+              · simp [S1.binds, S0.binds, partsBinds, fieldNone, incPart] at h
+                rcases h with h | h <;> exact Or.inl (by simp [fixedLocals, h])
+              · simp at h
+            · simp at h
+          · exact allFields_bindable p g (f :: r) (fun f' hf' => by rw [hfs]; exact hf') n h
+        · simp [asNames] at h
+          exact Or.inl (by simp [fixedLocals, h])
+      · simp [handlerStmts, S0.binds, partsBinds, handlerPart] at h
+  · unfold afterStmts at h
+    cases hca : g.catchAll with
+    | dflt m => simp [hca, S2.binds, S1.binds, S0.binds, partsBinds, catchDfltPart] at h
+    | required m idx =>
+      simp [hca, S2.binds, S1.binds, S0.binds, partsBinds, catchReqPart] at h
+      exact Or.inr (Or.inl ⟨m, h⟩)
+    | none =>
+      cases hun : g.unknown <;> simp [hca, hun, S2.binds, S1.binds, S0.binds, partsBinds, extraKeysPart, raiseUnknown, warnPart] at h <;>
+        exact Or.inl (by simp [fixedLocals, h])
+  · simp [tailStmts, S2.binds, S0.binds, partsBinds, missingPart] at h
+
+theorem allOuter_not_fixed : ∀ n ∈ allOuter, n ∉ fixedLocals := by decide
+
+theorem getLast_fieldVar' (m : S) : (fieldVar m).getLast? = some 'v' := by
+  have : fieldVar m = ('_' :: '_' :: m) ++ ['_', '_', 'v'] := by simp [fieldVar]
+  rw [this, List.getLast?_append]; rfl
+
+theorem allOuter_not_fieldVar : ∀ n ∈ allOuter, ∀ m, n ≠ fieldVar m := by
+  intro n hn m h
+  have hl : n.getLast? = some 'v' := by rw [h]; exact getLast_fieldVar' m
+  have : ∀ x ∈ allOuter, x.getLast? ≠ some 'v' := by decide
+  exact this n hn hl
+
+/-- the `OuterOk` premise from two facts about the inputs: the outside names are held outside, and no value expression binds one -/
+theorem outerOk_of (p : Char → Bool) (g : VIn) (outer : List S) (h1 : ∀ n ∈ skeletonOuter g, n ∈ outer)
+    (h2 : ∀ f ∈ g.fields, ∀ n, (n ∈ f.exprWrites ∨ n ∈ f.exprBinds) → n ∉ allOuter) : OuterOk (genScope p g outer) g := by
+  intro n hn
+  refine ⟨?_, h1 n hn⟩
+  have ha := skeletonOuter_sub g n hn
+  intro hl
+  simp only [genScope, List.mem_cons] at hl
+  rcases hl with h | h
+  · exact allOuter_not_fixed n ha (by simp [fixedLocals, h])
+  · rcases bindsAll_bindable p g n h with h | ⟨m, h⟩ | ⟨f, hf, h⟩
+    · exact allOuter_not_fixed n ha h
+    · exact allOuter_not_fieldVar n ha m h
+    · exact h2 f hf n h ha
+
+
+/-- the `ExprsOk` premise from a fact about the inputs: what an expression reads besides `v1` is held outside and is not a name the
+body can bind -/
+theorem exprsOk_of (p : Char → Bool) (g : VIn) (outer : List S)
+    (h : ∀ f ∈ g.fields, ∀ n ∈ f.exprReads, n = t "v1" ∨ (n ∈ outer ∧ ¬ Bindable g n)) : ExprsOk (genScope p g outer) g := by
+  intro f hf n hn
+  rcases h f hf n hn with h | ⟨h1, h2⟩
+  · exact Or.inl h
+  · refine Or.inr ⟨?_, h1⟩
+    intro hl
+    simp only [genScope, List.mem_cons] at hl
+    rcases hl with hl | hl
+    · exact h2 (Or.inl (by simp [fixedLocals, hl]))
+    · exact h2 (bindsAll_bindable p g n hl)
+
+/-- **the v1 skeleton theorem with premises about the inputs only** -/
+theorem wellScoped_inputs (p : Char → Bool) (g : VIn) (outer : List S) (hk : LookupsOk g)
+    (h1 : ∀ n ∈ skeletonOuter g, n ∈ outer)
+    (h2 : ∀ f ∈ g.fields, ∀ n, (n ∈ f.exprWrites ∨ n ∈ f.exprBinds) → n ∉ allOuter)
+    (h3 : ∀ f ∈ g.fields, ∀ n ∈ f.exprReads, n = t "v1" ∨ (n ∈ outer ∧ ¬ Bindable g n)) : wellScoped p g outer = true :=
+  wellScoped_all p g outer hk (outerOk_of p g outer h1 h2) (exprsOk_of p g outer h3)
+
 end DW.GenLoadV1
